@@ -251,7 +251,7 @@ func c03Grammar(c *vh.Ctx) (sample [][]byte) {
 	check := func(src string, desc string, ctx string, local *[]c03GramFail, st *[4]int, errs map[string]int) {
 		r := c03Parse([]byte(src))
 		st[0]++
-		if bad := c03CheckParse([]byte(src), r); bad != "" {
+		if bad := c03CheckParseAll([]byte(src), r); bad != "" {
 			*local = append(*local, c03GramFail{src, bad, desc})
 			return
 		}
